@@ -220,6 +220,53 @@ def handle_violations(prop, seed, opts, agg, max_groups=8, budget_s=60):
     return known_lines, vio_lines
 
 
+def exec_many_remote(eng_name, seqs, hashseed):
+    req = {"mode": "exec_seqs", "engine": eng_name, "sequences": seqs, "workers": 8, "limit_s": 120}
+    return list(read_group(spawn_group(req, hashseed)))
+
+
+def regression_replays(prop):
+    """-> list of ("KNOWN", line) | ("VIOLATION", (path, sig, violation, n)) | ("NOTE", text)"""
+    data = known.load_all()
+    jobs = []  # (kind, entry, path, replay)
+    for e in data.get("open", []):
+        if prop in e.get("properties", []):
+            for rp in e.get("example_replays", []):
+                jobs.append(("open", e, rp))
+    for e in data.get("fixed", []):
+        if prop in e.get("properties", []) and e.get("replay"):
+            jobs.append(("fixed", e, e["replay"]))
+    out = []
+    if not jobs:
+        return out
+    by_eng = {}
+    for kind, e, rp in jobs:
+        with open(os.path.join(VERIF, rp)) as f:
+            r = json.load(f)
+        hs = r["records"][-1]["config"].get("hashseed", 0)
+        by_eng.setdefault((r.get("engine", "history"), hs), []).append((kind, e, rp, r))
+    for (eng_name, hs), lst in by_eng.items():
+        eng = engine_mod(eng_name)
+        try:
+            results = exec_many_remote(eng_name, [r["records"] for _, _, _, r in lst], hs)
+        except GroupFailed as ex:
+            out.append(("HARNESS-ERROR", f"regression replays failed: {ex}"))
+            continue
+        for (kind, e, rp, r), res in zip(lst, results):
+            same = res.get("status") == "violation" and eng.signature(res) == r["expect"]["signature"]
+            if kind == "open":
+                if same:
+                    out.append(("KNOWN", f"KNOWN-FINDING: property={prop} {e['id']}: {e['what'][:160]}"))
+                else:
+                    out.append(("NOTE", f"recorded finding {e['id']} did not reproduce from {rp} (status={res.get('status')})"))
+            else:
+                if res.get("status") == "violation":
+                    out.append(("VIOLATION", (os.path.join(VERIF, rp), eng.signature(res), res["violation"], len(r["records"]))))
+                elif res.get("status") != "ok":
+                    out.append(("HARNESS-ERROR", f"fixed-finding replay {rp}: status={res.get('status')} {str(res.get('error'))[:300]}"))
+    return out
+
+
 def write_evidence(prop, tier, seed, level, agg, wall, extra_cov=None, violations=0, assumptions=None):
     P = PROPS[prop]
     os.makedirs(os.path.join(VERIF, "evidence"), exist_ok=True)
@@ -289,14 +336,23 @@ def check_main(prop, tier, seed=None, runs=None, opts=None):
     known_lines, vio_lines = [], []
     if agg["violations"]:
         known_lines, vio_lines = handle_violations(prop, seed, dict(P.get('opts', {}), **(opts or {})), agg)
-    # known-finding replays are re-confirmed in the quick tier (noticed if they disappear)
+    # replays of recorded findings: an open one is re-confirmed (KNOWN-FINDING), a fixed one must stay fixed
+    reg_lines = regression_replays(prop)
+    for kind, text in reg_lines:
+        if kind == "KNOWN":
+            if text not in known_lines:
+                known_lines.append(text)
+        else:
+            vio_lines.append((kind, *text) if isinstance(text, tuple) else (kind, text))
     wall = time.monotonic() - t0
     real_vios = [v for v in vio_lines if v[0] == "VIOLATION"]
     harness_bad = agg["harness_error"] + agg["timeout"] + agg["crash"] + len(agg["group_failures"]) + \
         len([v for v in vio_lines if v[0] in ("HARNESS-ERROR", "NOT-REPRODUCED")])
+    regression_count = len(reg_lines)
     level = P.get("level", "exploration")
     write_evidence(prop, tier, seed, level, agg, wall, violations=len(real_vios),
-                   extra_cov={"violating_runs_by_signature": _sig_counts(prop, agg), "known_findings_seen": known_lines})
+                   extra_cov={"violating_runs_by_signature": _sig_counts(prop, agg), "known_findings_seen": known_lines,
+                              "regression_replays_run": regression_count})
     for line in known_lines:
         print(line)
     print(f"runs={agg['runs']} ok={agg['ok']} violating={agg['violation']} excluded={agg['excluded']} "
@@ -306,6 +362,8 @@ def check_main(prop, tier, seed=None, runs=None, opts=None):
         if v[0] == "VIOLATION":
             print(f"VIOLATION property={prop} replay={v[1]}")
             print(f"  signature={v[2]} detail={json.dumps(v[3])[:600]}")
+        elif v[0] == "NOTE":
+            print(f"NOTE {v[1]}")
         else:
             print(f"{v[0]} {v[1]}")
     for e in agg["errors"][:5]:
